@@ -29,9 +29,22 @@ def analyse(P):
     c = cfg.cfg_of(body)
     loops = c.loops()
     sl = [h for h, bl in loops.items() if any(body["blocks"][b]["t"]["k"] == "call" and body["blocks"][b]["t"]["f"].get("fn") == "chess_lookup::between" for b in bl)]
+    stop_terms = set()
     if len(sl) != 1:
-        raise AnchorError(f"{KEY}: expected exactly one slider loop (calling chess_lookup::between), found {len(sl)}")
+        # the slider phase may live in a private helper, or in a closure handed to an iterator adaptor: the summary then ends in front of that call
+        from . import k2
+        calls_between = lambda f: any(t_["f"].get("fn") == "chess_lookup::between" for _, t_ in P.calls(f))
+        phase = {f for f in k2.private_closure(P, KEY) if f != KEY and any(calls_between(g_) for g_ in k2.private_closure(P, f))}
+        for bi, blk in enumerate(body["blocks"]):
+            t_ = blk["t"]
+            if t_["k"] == "call" and t_["f"].get("fn") in phase:
+                stop_terms.add(bi)
+            if any(s_.get("r", {}).get("k") == "agg" and s_["r"].get("ak") == "closure" and s_["r"].get("fn") in phase for s_ in blk["s"]):
+                stop_terms.add(bi)
+        if sl or len(stop_terms) != 1:
+            raise AnchorError(f"{KEY}: expected exactly one slider phase (a loop calling chess_lookup::between, or one call handing it to a helper/closure), found loops {sl}, calls {sorted(stop_terms)}")
     eng = T.Engine(P, opaque=OPAQUE)
+    eng.stop_terms = set(stop_terms)
     eng.trace_calls = {XOR, REMOVE_SQ}
     xm = T.mod_fields(P, XOR, 0, opaque={"<chess_bitboard::BitBoardIter as core::iter::traits::iterator::Iterator>::next"})
     if xm is not None:
@@ -39,7 +52,7 @@ def analyse(P):
     rm = T.mod_fields(P, REMOVE_SQ, 0)
     if rm is not None:
         eng.mod_summaries[REMOVE_SQ] = (0, MG + "castle_rights::CastleRights", rm)
-    leaves = eng.region(KEY, 0, {sl[0]})
+    leaves = eng.region(KEY, 0, {sl[0]} if sl else set())
     slf, mv, out = ("obj", ("param", 0, "self")), ("param", 1, "a1"), ("param", 2, "a2")
     piece_adt = P.find_adt("piece::Piece", "chess_bitboard")
     pd = {d: n for n, d in P.enum_variants(piece_adt)}
@@ -103,7 +116,7 @@ def analyse(P):
         p.calls = [tr for tr in lf.trace if tr[0] == "call"]
         p.eng = eng
         paths.append(p)
-    res = {"mod_xor": xm, "mod_remove_for_sq": rm, "paths": paths, "engine": eng, "loop": sl[0], "panics": [lf for lf in leaves if lf.ret[0] == "panic"], "piece_discr": pd}
+    res = {"mod_xor": xm, "mod_remove_for_sq": rm, "paths": paths, "engine": eng, "loop": (sl[0] if sl else None), "panics": [lf for lf in leaves if lf.ret[0] == "panic"], "piece_discr": pd}
     _CACHE[ck] = res
     return res
 
